@@ -57,6 +57,16 @@ func build(c cfg, opts model.Options) *rux.Router {
 			c.WriteString(name)
 		}
 	})
+	if len(c.tb.Routes) > 0 && c.nGlobal%2 == 1 {
+		model.RejectedOptions(r, opts) // too late for options: refused, and the router stays as it is
+	}
+	// an application that keeps its not-found / not-allowed handlers in a list passes an empty list: same as none
+	if !c.customNF && c.nGlobal >= 2 {
+		r.NotFound([]rux.HandlerFunc{}...)
+	}
+	if !c.customNA && c.nGlobal >= 2 {
+		r.NotAllowed(make([]rux.HandlerFunc, 0, 2)...)
+	}
 	if c.customNF {
 		r.NotFound(func(c *rux.Context) { c.SetStatus(404); c.WriteString("NF") })
 	}
